@@ -64,7 +64,7 @@ def num(x):
     if k == 2:
         return "%.17E" % x
     if k == 3:
-        return ("+" if x >= 0 else "") + repr(x)
+        return ("" if repr(x).startswith("-") else "+") + repr(x)  # (-0.0 prints with its sign already)
     return repr(x)
 
 
